@@ -72,12 +72,11 @@ class Mirror:
 
     def rgb_out(self, c):
         u, ph = self.u, self.ph
-        if zero_division(c[0] / 100.0, c[1] / 100.0, c[2] / 100.0):
-            try:
-                u.rgb_to_raw(c)
-            except ZeroDivisionError:
-                return [0]
-            raise AssertionError('rgb_to_raw%r was expected to raise ZeroDivisionError' % (c,))
+        # units.py guards colorsys.rgb_to_hsv (D62): nothing raises; the model has no [0] rows
+        try:
+            u.rgb_to_raw(c)
+        except ZeroDivisionError:
+            return [0]
         raw = u.rgb_to_raw(c)
         return codes(raw) + codes(u.rgb_to_logical(c)) + ints(ph.param_color(raw))
 
@@ -293,7 +292,7 @@ def gen_cases(ctx, n_per_mode):
             'raw': [([30000, 65535, 32767, 2700], 2500, 10000), ([0, 0, 0, 0], 0, 0), ([65535, 65535, 65535, 9000], 1, 0),
                     ([11, 22, 33, 2500], 0, 0), ([100.5, 200.5, 65535.5, 2700.5], 2.5, 0.5)],
             'rgb': [([50, 0, 50, 2700], 0, 0), ([80, 80, 80, 2700], 1, 0), ([0, 0, 100, 2500], 3.5, 2.5), ([0, 100, 0, 2500], 1.5, 1.5),
-                    ([100, 100, 100, 4000], 0, 0), ([0, 0, 0, 2700], 2, 0), ([12.5, 33.3, 66.6, 3500.5], 0.0015, 0)],
+                    ([100, 100, 100, 4000], 0, 0), ([0, 0, 0, 2700], 2, 0), ([0, -0.5, -0.5, 2700], 0, 0), ([-5, 0, -100, 2700], 1, 0), ([12.5, 33.3, 66.6, 3500.5], 0.0015, 0)],
         }[mode]
         for c, d, t in fixed:
             cases.append((mode, c, d, t))
@@ -360,7 +359,7 @@ def end_to_end(ctx):
             if not r.compiled:
                 raise RuntimeError('generated script does not compile: %r %r' % (src, r.errors))
             if r.errors and mode == 'rgb' and 'division by zero' in r.errors[0] and max(color[:3]) <= 0 and min(color[:3]) < 0:
-                # colorsys.rgb_to_hsv divides by the largest component: known finding D62 (KNOWN_FINDINGS.txt)
+                # colorsys.rgb_to_hsv divides by the largest component: D62, repaired in units.py (KNOWN_FINDINGS.txt)
                 ctx.counterexample('C07/rgb-no-positive-component-divides-by-zero',
                                    'rgb units with no positive and at least one negative component (%r): %s' % (list(color[:3]), r.errors[0][:120]),
                                    {'script': src, 'world': wk, 'errors': r.errors})
@@ -518,6 +517,7 @@ def end_to_end(ctx):
     ctx.extra['observations'] = len(observations)
     ctx.extra['kinds'] = U.KINDS
     non_finite(ctx, worlds)
+    default_colour(ctx, worlds, cases)
     get_roundtrip(ctx, worlds)
 
 
@@ -624,6 +624,40 @@ def non_finite(ctx, worlds):
                                                        'registers %s/%s in %s units: light %s is handed %r' % (a, b, mode, name, e),
                                                        {'script': src, 'world': wk})
     ctx.extra['non_finite_scripts'] = n
+
+
+def default_colour(ctx, worlds, cases):
+    """`set default` keeps the colour of the registers for the cells a later matrix command leaves unstaged: those cells
+    are handed the integers a plain `set` with the same registers hands its light (judged by the specification in the
+    main stage), in every unit mode."""
+    w = worlds['wire']
+    n = 0
+    for ci, (mode, color, d, t) in enumerate(cases):
+        if ci % 4 and not ctx.thorough():
+            continue
+        other = {'logical': 'hue 200 saturation 40 brightness 60 kelvin 4000', 'raw': 'hue 7 saturation 8 brightness 9 kelvin 4000',
+                 'rgb': 'red 10 green 90 blue 40 kelvin 4000'}[mode]
+        src = ('units %s\n%s\nset "L1"\nset default\n%s\nset "M" row 1 2 column 0 1\n' % (mode, U.settings_text(mode, color, 0, 0), other))
+        r = U.run_script(w, src)
+        if not r.compiled:
+            raise RuntimeError('default-colour script does not compile: %r %r' % (src, r.errors))
+        if r.errors:
+            continue    # judged in the main stage (same registers)
+        n += 1
+        ctx.count()
+        sent = [e for e in r.calls.get('L1', []) if e[0] == 'color']
+        mats = [e for e in r.calls.get('M', []) if e[0] == 'matrix']
+        if len(sent) != 1 or len(mats) != 1:
+            ctx.counterexample('C07/unexpected-calls', 'default-colour script: calls %r' % ({k: len(v) for k, v in r.calls.items()},), {'script': src, 'world': 'wire'})
+            continue
+        cells = mats[0][1]
+        others = [cells[i] for i in range(30) if i not in (5, 6, 10, 11)]
+        wrong = [o for o in others if list(o) != list(sent[0][1])]
+        if wrong:
+            ctx.counterexample('C07/default-colour-cells-not-converted',
+                               'a default colour defined in %s units with registers %r reaches the unstaged cells of a matrix as %r; `set` with the same registers sends %r'
+                               % (mode, color, list(wrong[0]), list(sent[0][1])), {'script': src, 'world': 'wire', 'mode': mode})
+    ctx.extra['default_colour_scripts'] = n
 
 
 def get_roundtrip(ctx, worlds):
